@@ -250,7 +250,9 @@ def _emit_bounded(n):
     return run
 
 
-for _n in range(1, 5):
+from pyvc.harness import thorough as _thorough   # noqa: E402
+
+for _n in range(1, 7 if _thorough() else 5):
     harness('c05.emit.bounded[queue_length=%d]' % _n, ['C05', 'C08', 'C09', 'C01', 'C03', 'C10'], kind='bounded', functions=[GET_NEXT], replay='c05_emit',
             assumptions=['BOUNDED instance (queue length <= 4, quantifiers expanded) used only to obtain concrete counter-models; '
                          'the unbounded obligation is c05.emit.inv'])(_emit_bounded(_n))
